@@ -1,6 +1,213 @@
-//! (stub) — not generated yet.
-use super::{GenFile, Repo};
+//! `Gen/Consts.lean`: representation constants read from the source.
+//!
+//! * `TAG_BITS`, `MASK`, `TAG_INLINE`, `TAG_BORROWED`, `TAG_ALLOCATED` (src/bytes/raw.rs), `MASK`
+//!   evaluated from its initialiser expression;
+//! * `INLINE_CAPACITY = size_of::<Borrowed>() - 1`, with `size_of::<Borrowed>()` computed from the
+//!   `#[repr(C)]` struct definition in src/bytes/raw/borrowed.rs for the 64-bit target;
+//! * the inline representation's tag parameters: `Inline = InlineVec<u8, INLINE_CAPACITY, TAG_BITS, TAG_INLINE>`
+//!   and how `TaggedU8::new` encodes a length (`(len << SHIFT) as u8 | TAG`);
+//! * the increment bounds of the counters: `Arc::incr` loops `while old < <bound>`, `Rc::incr`
+//!   accepts `new < <bound>` (src/smart.rs).
+//! Fails closed on any other shape.
 
-pub fn generate(_repo: &Repo) -> Result<Vec<GenFile>, String> {
-    Ok(vec![])
+use syn::{Expr, Item};
+
+use super::repo::{loc, SrcFile};
+use super::{GenFile, Repo, HEADER};
+
+const PTR: u64 = 8; // 64-bit target
+
+fn find_const<'a>(file: &'a SrcFile, name: &str) -> Result<&'a syn::ItemConst, String> {
+    for it in &file.ast.items {
+        if let Item::Const(c) = it {
+            if c.ident == name {
+                return Ok(c);
+            }
+        }
+    }
+    Err(format!("Gen/Consts: const {name} not found in {}", file.rel))
+}
+
+fn expr_str(e: &Expr) -> String {
+    quote::quote!(#e).to_string().replace(' ', "")
+}
+
+/// evaluates the tiny constant-expression language used by these consts
+fn eval(file: &SrcFile, e: &Expr, env: &dyn Fn(&str) -> Option<u64>) -> Result<u64, String> {
+    use syn::spanned::Spanned;
+    match e {
+        Expr::Lit(l) => match &l.lit {
+            syn::Lit::Int(i) => i.base10_parse::<u64>().map_err(|e| e.to_string()),
+            _ => Err(format!("Gen/Consts: literal at {}", loc(file, l.span()))),
+        },
+        Expr::Paren(p) => eval(file, &p.expr, env),
+        Expr::Path(p) => {
+            let name = p.path.segments.last().map(|s| s.ident.to_string()).unwrap_or_default();
+            env(&name).ok_or_else(|| format!("Gen/Consts: unknown name {name} at {}", loc(file, p.span())))
+        }
+        Expr::Binary(b) => {
+            let l = eval(file, &b.left, env)?;
+            let r = eval(file, &b.right, env)?;
+            match &b.op {
+                syn::BinOp::Add(_) => Ok(l + r),
+                syn::BinOp::Sub(_) => l.checked_sub(r).ok_or_else(|| "Gen/Consts: negative constant".to_string()),
+                syn::BinOp::Shl(_) => Ok(l << r),
+                syn::BinOp::Mul(_) => Ok(l * r),
+                _ => Err(format!("Gen/Consts: operator at {}", loc(file, b.span()))),
+            }
+        }
+        Expr::Call(_) => {
+            let s = expr_str(e);
+            match s.as_str() {
+                "size_of::<usize>()" => Some(PTR),
+                "size_of::<Borrowed>()" => env("size_of::<Borrowed>"),
+                _ => None,
+            }
+            .ok_or_else(|| format!("Gen/Consts: call {s} at {}", loc(file, e.span())))
+        }
+        Expr::Cast(c) => eval(file, &c.expr, env),
+        _ => Err(format!("Gen/Consts: expression `{}` at {}", expr_str(e), loc(file, e.span()))),
+    }
+}
+
+/// `size_of` of the `#[repr(C)]` struct `Borrowed` on a 64-bit little-endian target.
+fn size_of_borrowed(repo: &Repo) -> Result<u64, String> {
+    use syn::spanned::Spanned;
+    let file = repo.file("src/bytes/raw/borrowed.rs")?;
+    for it in &file.ast.items {
+        let Item::Struct(st) = it else { continue };
+        if st.ident != "Borrowed" {
+            continue;
+        }
+        let repr_c = st.attrs.iter().any(|a| a.path().is_ident("repr") && quote::quote!(#a).to_string().contains('C'));
+        if !repr_c {
+            return Err(format!("Gen/Consts: Borrowed is not repr(C) at {}", loc(file, st.span())));
+        }
+        let mut off = 0u64;
+        let mut max_align = 1u64;
+        for f in &st.fields {
+            // skip the big-endian alternative fields
+            let cfg_big = f.attrs.iter().any(|a| quote::quote!(#a).to_string().replace(' ', "").contains("target_endian=\"big\""));
+            if cfg_big {
+                continue;
+            }
+            let ty = &f.ty;
+            let t = quote::quote!(#ty).to_string().replace(' ', "");
+            let (size, align) = match t.as_str() {
+                "NonZeroU8" => (1, 1),
+                "MaybeUninit<[u8;size_of::<usize>()-1]>" => (PTR - 1, 1),
+                "&'borrow[u8]" => (2 * PTR, PTR),
+                other => return Err(format!("Gen/Consts: field type {other} at {}", loc(file, f.span()))),
+            };
+            off = off.div_ceil(align) * align + size;
+            max_align = max_align.max(align);
+        }
+        return Ok(off.div_ceil(max_align) * max_align);
+    }
+    Err("Gen/Consts: struct Borrowed not found".into())
+}
+
+/// the bound `B` in `while old < B` (Arc) / `if new < B` (Rc) inside `incr`
+fn incr_bound(repo: &Repo, ty: &str) -> Result<(String, String), String> {
+    use syn::spanned::Spanned;
+    let file = repo.file("src/smart.rs")?;
+    for it in &file.ast.items {
+        let Item::Impl(imp) = it else { continue };
+        let Some((_, tr, _)) = &imp.trait_ else { continue };
+        if !tr.is_ident("Kind") {
+            continue;
+        }
+        let self_ty = &imp.self_ty;
+        if quote::quote!(#self_ty).to_string() != ty {
+            continue;
+        }
+        for ii in &imp.items {
+            let syn::ImplItem::Fn(f) = ii else { continue };
+            if f.sig.ident != "incr" {
+                continue;
+            }
+            let body = quote::quote!(#f).to_string().replace(' ', "");
+            let (pat, what) = if ty == "Arc" { ("whileold<", "old") } else { ("ifnew<", "new") };
+            let Some(i) = body.find(pat) else {
+                return Err(format!("Gen/Consts: `{what} < bound` not found in {ty}::incr at {}", loc(file, f.span())));
+            };
+            let rest = &body[i + pat.len()..];
+            let end = rest.find('{').unwrap_or(rest.len());
+            let bound = &rest[..end];
+            let lean = match bound {
+                "usize::MAX-1" => "U - 2",
+                "usize::MAX" => "U - 1",
+                other => return Err(format!("Gen/Consts: unsupported bound `{other}` in {ty}::incr at {}", loc(file, f.span()))),
+            };
+            return Ok((lean.to_string(), loc(file, f.sig.span())));
+        }
+    }
+    Err(format!("Gen/Consts: impl Kind for {ty} / incr not found"))
+}
+
+pub fn generate(repo: &Repo) -> Result<Vec<GenFile>, String> {
+    use syn::spanned::Spanned;
+    let raw = repo.file("src/bytes/raw.rs")?;
+    let sob = size_of_borrowed(repo)?;
+    let mut vals: Vec<(String, u64, String)> = vec![];
+    for name in ["TAG_BITS", "MASK", "TAG_INLINE", "TAG_BORROWED", "TAG_ALLOCATED", "INLINE_CAPACITY"] {
+        let c = find_const(raw, name)?;
+        let snapshot = vals.clone();
+        let env = move |n: &str| -> Option<u64> {
+            if n == "size_of::<Borrowed>" {
+                return Some(sob);
+            }
+            snapshot.iter().find(|(k, _, _)| k == n).map(|(_, v, _)| *v)
+        };
+        let v = eval(raw, &c.expr, &env)?;
+        vals.push((name.to_string(), v, loc(raw, c.span())));
+    }
+    // type Inline = InlineVec<u8, INLINE_CAPACITY, TAG_BITS, TAG_INLINE>
+    let mut inline_alias = None;
+    for it in &raw.ast.items {
+        if let Item::Type(t) = it {
+            if t.ident == "Inline" {
+                let ty = &t.ty;
+                inline_alias = Some((quote::quote!(#ty).to_string().replace(' ', ""), loc(raw, t.span())));
+            }
+        }
+    }
+    let Some((alias, alias_loc)) = inline_alias else {
+        return Err("Gen/Consts: type Inline not found".into());
+    };
+    if alias != "InlineVec<u8,INLINE_CAPACITY,TAG_BITS,TAG_INLINE>" {
+        return Err(format!("Gen/Consts: unexpected Inline alias `{alias}` at {alias_loc}"));
+    }
+    // TaggedU8::new encoding
+    let inl = repo.file("src/vecs/inline.rs")?;
+    let text = inl.text.replace([' ', '\n'], "");
+    if !text.contains("letshifted=len<<SHIFT;letvalue=shiftedasu8|TAG;") {
+        return Err("Gen/Consts: TaggedU8::new no longer encodes `(len << SHIFT) as u8 | TAG` (src/vecs/inline.rs)".into());
+    }
+    if !text.contains("(self.0.get()>>SHIFT)asusize") {
+        return Err("Gen/Consts: TaggedU8::get no longer decodes `value >> SHIFT` (src/vecs/inline.rs)".into());
+    }
+    let (arc_bound, arc_loc) = incr_bound(repo, "Arc")?;
+    let (rc_bound, rc_loc) = incr_bound(repo, "Rc")?;
+
+    let mut s = String::from(HEADER);
+    s.push_str("import HipVerif.Model.RangeTy\n\nnamespace HipVerif.Gen.Consts\nopen HipVerif.RangeTy\n\n");
+    let lean_names = [
+        ("TAG_BITS", "tagBits"),
+        ("MASK", "mask"),
+        ("TAG_INLINE", "tagInline"),
+        ("TAG_BORROWED", "tagBorrowed"),
+        ("TAG_ALLOCATED", "tagAllocated"),
+        ("INLINE_CAPACITY", "inlineCapacity"),
+    ];
+    for (name, v, l) in &vals {
+        let ln = lean_names.iter().find(|(k, _)| k == name).unwrap().1;
+        s.push_str(&format!("/-- `{name}` — {l} -/\ndef {ln} : Nat := {v}\n\n"));
+    }
+    s.push_str(&format!("/-- `size_of::<Borrowed>()` computed from the repr(C) definition (64-bit) -/\ndef sizeOfBorrowed : Nat := {sob}\n\n"));
+    s.push_str(&format!("/-- `type Inline = {alias}` — {alias_loc}; length byte = `(len << inlineShift) ||| inlineTag` -/\ndef inlineShift : Nat := tagBits\ndef inlineTag : Nat := tagInline\n\n"));
+    s.push_str(&format!("/-- `Arc::incr` succeeds while `old < arcIncrBound` — {arc_loc} -/\ndef arcIncrBound : Nat := {arc_bound}\n\n"));
+    s.push_str(&format!("/-- `Rc::incr` succeeds while `new < rcIncrBound` — {rc_loc} -/\ndef rcIncrBound : Nat := {rc_bound}\n\n"));
+    s.push_str("end HipVerif.Gen.Consts\n");
+    Ok(vec![GenFile { name: "Consts.lean".into(), content: s }])
 }
